@@ -67,7 +67,7 @@ def frac_power(C, a):
 def analytic_signal(M, padding="exp", decay=0.2):
     """Analytic signal per column along axis 0 as documented by hilbert_transform: optional
     exponential padding towards a linear fit on both sides (each of length n), FFT-based Hilbert
-    transform, cut back, then the column mean is removed."""
+    transform, cut back, then the column mean of the imaginary part (which the padding shifts) is removed."""
     M = np.asarray(M, dtype=float)
     n = M.shape[0]
     y = M
@@ -95,7 +95,7 @@ def analytic_signal(M, padding="exp", decay=0.2):
     z = np.fft.ifft(F * h[:, None], axis=0)
     if padding == "exp":
         z = z[n : 2 * n]
-    return z - z.mean(axis=0, keepdims=True)
+    return z - 1j * z.imag.mean(axis=0, keepdims=True)
 
 
 def delay_embed(M, tau, embedding):
